@@ -960,7 +960,7 @@ impl<K: El, V: El> Mon<K, V> {
                         rethrow_fuse(&p);
                         out.act.push(2);
                         if !(p.contains("capacity overflow") || p.contains("Hash table capacity overflow")) || !reserve_may_fail(st0, n) {
-                            viol!("C10", "reserve({n}) with len {len0} panicked: {p}");
+                            return Err(Viol { extra: Vec::new(), prop: "C10", more: &["C01"], msg: format!("reserve({n}) with len {len0} panicked (undocumented): {p}") });
                         }
                         self.stats.expected_panics += 1;
                     }
@@ -996,7 +996,7 @@ impl<K: El, V: El> Mon<K, V> {
                 match r {
                     Err(p) => {
                         rethrow_fuse(&p);
-                        viol!("C10", "try_reserve({n}) with len {len0} panicked: {p}")
+                        return Err(Viol { extra: Vec::new(), prop: "C10", more: &["C01"], msg: format!("try_reserve({n}) with len {len0} panicked: {p}") });
                     }
                     Ok(Ok(())) => {
                         out.act.push(0);
